@@ -846,9 +846,14 @@ class VPick(View):
                 if _valid_view(ops) and _canonical_view(ops):
                     yield [ND, nc, 'sc' if x[0] == 'rst' else ('sc', 'hi')[k % 2], ops]
                     k += 1
-        # datasets of every component class as layers: every sequence of 3 (thorough 4) ops over a small
-        # alphabet with flag flips, template pair and viewer class rotating
-        for seq in itertools.product(VPT_ALPHA, repeat=L):
+        # datasets of every component class as layers: every sequence of 2 (thorough 4) ops over a small
+        # alphabet with flag flips after both datasets are layers / in the collection only, template
+        # pair and viewer class rotating
+        for seq in itertools.product(VPT_ALPHA, repeat=2 if tier == "quick" else 4):
+            ops = [['app', 0], ['app', 1], ['vad', 1], ['vad', 0]] + [list(o) for o in seq]
+            yield [list(TMPL_PAIRS[k % len(TMPL_PAIRS)]), nc, ('sc', 'hi')[(k // len(TMPL_PAIRS)) % 2], ops]
+            k += 1
+        for seq in itertools.product(VPT_ALPHA, repeat=2 if tier == "quick" else 4):
             ops = [['app', 0], ['app', 1]] + [list(o) for o in seq]
             yield [list(TMPL_PAIRS[k % len(TMPL_PAIRS)]), nc, ('sc', 'hi')[(k // len(TMPL_PAIRS)) % 2], ops]
             k += 1
@@ -1764,6 +1769,6 @@ PROP = Property(
                  "x_att / y_att setters are called with pixel axes of the current reference data; explicit selections of None only while None is on offer (echo accepts None unconditionally: theorem explicit_none_accepted)",
                  "snapshots taken while a hub delay block is open are compared with the model but not judged by the Spec (the helper has not been told yet, by design)",
                  "restore is checked for the scatter and image viewers; histogram / profile viewers cannot be restored on this tree (known finding C18c = C12's F12)"],
-    rule="kinds: introspection of the tree under test - every Component subclass (recursive __subclasses__, CoordinateComponent split pixel / world) must be a constructor of the model's CompClass and occur in one of the generator's datasets, every string Data.get_kind can return (read off its source + measured on the generated components) must be a constructor of the model's Kind; all 128 flag combinations x every component class (flags through the constructor / through the setters, alternating). Dataset templates of the picker families: std (categorical, datetime, numerical, pixel + world coordinate), reg (RegionData: three numerical columns + the extended region column), ext1 (Data + ExtendedComponent), dask (categorical + DaskComponent), drv (2-d, affine coordinates, derived component), bare (2-d, no coordinates). combo also: every template x all 128 flag combinations (flags before / after append_data, two orders), six template pairs x 128, an extended and a dask component added and moved to the front x 128, every pair (thorough: triple) of ops over a 27-letter alphabet on every non-standard template; combor: two thirds of the histories on random templates, ac draws from five component classes; dcombo: every fourth case on rotating templates; vpick also: every sequence of 3 / 4 ops over a 7-letter alphabet with flag flips on six template pairs as layers, all 128 flag combinations for every picker x template pair (8 walks of 16), random histories on random templates with flag flips; viewr: half of the scatter / histogram histories on random templates. view: one extended viewer op (add_subset / remove_subset / remove_layer / state.layers.remove / restore / second-dataset ops) at every position of every core sequence (append/remove x2 datasets, new group, remove group, add_data x2, remove_data) of length 2 (quick) / 3 (thorough); every core sequence of length 4 / 5; every sequence of length 5 / 7 over a 5-letter one-dataset alphabet; viewer class rotating by case; viewr: seeded random histories of length 4-15 / 4-40 over 2-3 datasets, up to 3 groups, with restores. vpick: the x/y attribute pickers of ScatterViewerState / HistogramViewerState read in situ after every step of every core viewer history of length 3 / 4, one extended op after every core history of length 2 / 3, 150 / 6000 random histories. combo: every sequence of 3 ops over a 25-letter core alphabet after helper.append_data + every pair over the full 39-letter alphabet after three prefixes (thorough: triples over the full alphabet, 4-sequences over 19 letters); combor: random length 4-15 / 4-40. dcombo: every sequence of length 3-4 / 4-5 over 12-15 letters for both helper classes and two initial collections. axes: every setter sequence of length 3 (thorough 4, all three coordinate kinds) on a 3-d and a 2-d reference dataset, every sequence of length 2 (thorough 4) over the full 18-letter alphabet incl. reference-data changes and layers coming and going, samples of the next length. non-trivial = the history touches both sides (e.g. add_data and a collection change).",
+    rule="kinds: introspection of the tree under test - every Component subclass (recursive __subclasses__, CoordinateComponent split pixel / world) must be a constructor of the model's CompClass and occur in one of the generator's datasets, every string Data.get_kind can return (read off its source + measured on the generated components) must be a constructor of the model's Kind; all 128 flag combinations x every component class (flags through the constructor / through the setters, alternating). Dataset templates of the picker families: std (categorical, datetime, numerical, pixel + world coordinate), reg (RegionData: three numerical columns + the extended region column), ext1 (Data + ExtendedComponent), dask (categorical + DaskComponent), drv (2-d, affine coordinates, derived component), bare (2-d, no coordinates). combo also: every template x all 128 flag combinations (flags before / after append_data, two orders), six template pairs x 128, an extended and a dask component added and moved to the front x 128, every pair (thorough: triple) of ops over a 27-letter alphabet on every non-standard template; combor: two thirds of the histories on random templates, ac draws from five component classes; dcombo: every fourth case on rotating templates; vpick also: every sequence of 2 / 4 ops over a 7-letter alphabet with flag flips (after both datasets became layers / entered the collection) on six template pairs, all 128 flag combinations for every picker x template pair (8 walks of 16), random histories on random templates with flag flips; viewr: half of the scatter / histogram histories on random templates. view: one extended viewer op (add_subset / remove_subset / remove_layer / state.layers.remove / restore / second-dataset ops) at every position of every core sequence (append/remove x2 datasets, new group, remove group, add_data x2, remove_data) of length 2 (quick) / 3 (thorough); every core sequence of length 4 / 5; every sequence of length 5 / 7 over a 5-letter one-dataset alphabet; viewer class rotating by case; viewr: seeded random histories of length 4-15 / 4-40 over 2-3 datasets, up to 3 groups, with restores. vpick: the x/y attribute pickers of ScatterViewerState / HistogramViewerState read in situ after every step of every core viewer history of length 3 / 4, one extended op after every core history of length 2 / 3, 150 / 6000 random histories. combo: every sequence of 3 ops over a 25-letter core alphabet after helper.append_data + every pair over the full 39-letter alphabet after three prefixes (thorough: triples over the full alphabet, 4-sequences over 19 letters); combor: random length 4-15 / 4-40. dcombo: every sequence of length 3-4 / 4-5 over 12-15 letters for both helper classes and two initial collections. axes: every setter sequence of length 3 (thorough 4, all three coordinate kinds) on a 3-d and a 2-d reference dataset, every sequence of length 2 (thorough 4) over the full 18-letter alphabet incl. reference-data changes and layers coming and going, samples of the next length. non-trivial = the history touches both sides (e.g. add_data and a collection change).",
     partial_note="Partial for per-viewer State subclasses: 'all callback-property values of State subclasses' is covered only as far as ImageViewerState's axis attributes, the viewers' layers list and the SelectionCallbackProperty rule; other callback properties (limits, colours, ...) are not modelled.",
 )
